@@ -24,6 +24,9 @@ pub struct CompressSpec {
     /// Deliver the source on stdin (piece seed) instead of `-i file`.
     pub stdin: Option<u64>,
     pub force: bool,
+    /// With `force`: the output path already holds this many junk bytes (an older,
+    /// possibly larger file that --force-create must replace completely).
+    pub preexisting: Option<usize>,
     pub metadata_values: Vec<(String, String)>,
     pub metadata_files: Vec<(String, Vec<u8>)>,
 }
@@ -37,6 +40,7 @@ impl CompressSpec {
             buffered: None,
             stdin: None,
             force: false,
+            preexisting: None,
             metadata_values: vec![],
             metadata_files: vec![],
         }
